@@ -746,6 +746,10 @@ func rtEngineRest(c *Ctx) {
 			{Name: "y2400", Kind: 'f', Perms: 0644, Uid: 3, Gid: 4, Sec: 13569465600, Content: []byte("late")},
 			{Name: "y2400d", Kind: 'd', Perms: 0755, Uid: 3, Gid: 4, Sec: 13569465601},
 			{Name: "y2400l", Kind: 'L', Perms: 0777, Uid: 3, Gid: 4, Sec: 13569465602, Link: "y2400"},
+			// a directory that holds nothing but symlinks (node_modules/.bin, /etc/alternatives), and one that holds only a fifo
+			{Name: "onlylinks", Kind: 'd', Perms: 0755, Uid: 3, Gid: 4, Sec: 1e9 - 777},
+			{Name: "onlylinks/ash", Kind: 'L', Perms: 0777, Uid: 3, Gid: 4, Sec: 1e9 - 5, Link: "sh"},
+			{Name: "onlylinks/sh", Kind: 'L', Perms: 0777, Uid: 3, Gid: 4, Sec: 1e9 - 6, Link: "../one-zero"},
 			{Name: "ln-255", Kind: 'L', Perms: 0777, Uid: 3, Gid: 4, Sec: 1e9, Link: strings.Repeat("a", 255)},
 			{Name: "ln-1025", Kind: 'L', Perms: 0777, Uid: 3, Gid: 4, Sec: 1e9, Link: strings.Repeat("b/", 512) + "c"},
 			{Name: "ln-4095", Kind: 'L', Perms: 0777, Uid: 3, Gid: 4, Sec: 1e9, Link: "/" + strings.Repeat("d", 4094)}}
